@@ -625,6 +625,8 @@ fn run(args: &[String]) {
         tot.recorder_validations += s.recorder_validations;
         tot.inconclusive.extend(s.inconclusive); tot.violations.extend(s.violations); tot.samples.extend(s.samples);
     }
+    // replay files exist for the first 25 violations only: list those first, so the report's first entry names a file
+    tot.violations.sort_by_key(|v| v.starts_with('|'));
     let cut = tot.layouts < n;
     let q = |v: &Vec<String>, cap: usize| -> String { v.iter().take(cap).map(|s| format!("\"{}\"", json_escape(s))).collect::<Vec<_>>().join(", ") };
     let report = format!(
